@@ -67,6 +67,10 @@ structure Param where
   /-- the variable stored under the key `name` is itself called `name` in the pymc model: the likelihood helper
   fetches the prior with `prior.model[name]`, so only then is the validated variable the one that is used -/
   named : Bool
+  /-- the variable stored under the key IS the variable that the prior's pymc model holds under that name (same object):
+  a same-named variable of another model, or an unregistered `.dist()` variable, is validated here while the likelihood
+  helper would use whatever `prior.model[name]` is -/
+  registered : Bool
   deriving DecidableEq, Repr, Inhabited
 
 /-! ## names -/
@@ -132,8 +136,8 @@ def checkLinear (env : List Param) : List Name → Except Err Unit
     | none => .error .unspecified
     | some par =>
       match par.kind with
-      | .normal => checkLinear env rest
-      | .fcm => if n = .K then checkLinear env rest else .error .value     -- the kernel knows its P, e dependence for K only
+      | .normal => if par.registered = true then checkLinear env rest else .error .value
+      | .fcm => if n = .K ∧ par.registered = true then checkLinear env rest else .error .value     -- the kernel knows its P, e dependence for K only
       | .normalDep => .error .value
       | .otherRV => .error .value
       | .notTensor => .error .type
@@ -239,7 +243,7 @@ def defaultTrend (user : List Param) (sv : Option (List (Name × QArg))) :
       | some (.qty dim) =>
         match defaultTrend user sv rest with
         | .error e => .error e
-        | .ok ps => .ok (⟨n, some dim, .normal, true⟩ :: ps)
+        | .ok ps => .ok (⟨n, some dim, .normal, true, true⟩ :: ps)
       | _ => .error .unspecified                    -- entry without `.value` / `.unit`, or KeyError
 
 /-- what `default_nonlinear_prior` + `default_linear_prior` hand to `JokerPrior.__init__` -/
@@ -256,7 +260,7 @@ def assemble (d : DefaultInput) : Except Err PriorInput :=
   let sCheck : Except Err (List Param) :=
     match d.s with
     | .missing => .ok []
-    | .tensor un k => .ok (if hasName d.userPars .s then [] else [⟨.s, un, k, true⟩])
+    | .tensor un k => .ok (if hasName d.userPars .s then [] else [⟨.s, un, k, true, true⟩])
     | .bare => .error .units
     | .qty dim => if dim = Dim.vel 0 then .ok [] else .error .units
   match sCheck with
@@ -265,10 +269,10 @@ def assemble (d : DefaultInput) : Except Err PriorInput :=
   let user := d.userPars ++ sUser
   let sDim : Dim := match d.s with | .qty dim => dim | _ => Dim.vel 0
   let dflt (n : Name) (par : Param) : List Param := if hasName user n then [] else [par]
-  let nlDefaults := dflt .e ⟨.e, some Dim.one, .otherRV, true⟩ ++ dflt .omega ⟨.omega, some Dim.angle1, .unnamedOp, true⟩
-      ++ dflt .M0 ⟨.M0, some Dim.angle1, .unnamedOp, true⟩ ++ dflt .s ⟨.s, some sDim, .unnamedOp, true⟩
+  let nlDefaults := dflt .e ⟨.e, some Dim.one, .otherRV, true, true⟩ ++ dflt .omega ⟨.omega, some Dim.angle1, .unnamedOp, true, true⟩
+      ++ dflt .M0 ⟨.M0, some Dim.angle1, .unnamedOp, true, true⟩ ++ dflt .s ⟨.s, some sDim, .unnamedOp, true, true⟩
   if hasName user .P = false ∧ (d.pMin = .missing ∨ d.pMax = .missing) then .error .value else
-  let nl := nlDefaults ++ dflt .P ⟨.P, some Dim.time1, .otherRV, true⟩
+  let nl := nlDefaults ++ dflt .P ⟨.P, some Dim.time1, .otherRV, true, true⟩
   -- default_linear_prior ----------------------------------------------------------------------
   match quantityInput d.sigmaK0 (Dim.vel 0) with
   | .error e => .error e
@@ -291,7 +295,7 @@ def assemble (d : DefaultInput) : Except Err PriorInput :=
     | some par => (match par.unit with | some un => decide (un ≠ Dim.time1) | none => false)
     | none => false
   if hasName user .K = false ∧ pUnitBad = true then .error .units else
-  let kDefault := dflt .K ⟨.K, (match d.sigmaK0 with | .qty dim => some dim | _ => none), .fcm, true⟩
+  let kDefault := dflt .K ⟨.K, (match d.sigmaK0 with | .qty dim => some dim | _ => none), .fcm, true, true⟩
   match defaultTrend user sv (trendReq p) with
   | .error e => .error e
   | .ok tr =>
